@@ -1933,6 +1933,15 @@ class Method:
         )
         answer.extend(types)
 
+        # The annotation of a flattened map parameter names the map's value
+        # type, which may reside in a different module than the request.
+        if not recursive:
+            for f in self.flattened_fields.values():
+                if f.map:
+                    value = f.type.fields["value"]
+                    if value.message or value.enum:
+                        answer.append(value.type)
+
         if not self.void:
             answer.append(self.client_output)
             answer.extend(self.client_output.field_types)
